@@ -315,7 +315,7 @@ func c15KeyPairs() fw.Result {
 	sql := "SELECT * FROM stream MATCH_RECOGNIZE (PARTITION BY a, b ORDER BY ts MEASURES FIRST(id) AS f, LAST(id) AS l ONE ROW PER MATCH PATTERN (A B) DEFINE A AS v = 1, B AS v = 2)"
 	// plus the tuples that collide under any "join the components with a middle" encoding
 	nUni := len(uni)
-	mp := middlePairs()
+	mp := collisionPairs()
 	for _, pr := range mp {
 		uni = append(uni, []any{pr[0][0], pr[0][1]}, []any{pr[1][0], pr[1][1]})
 	}
